@@ -1,2 +1,437 @@
-From Coq Require Import ZArith List Bool Lia.
-From SP Require Import Base.Result Base.Bytes.
+(* Proofs for Model/Fields.v and Model/Srv1.v (property C15, service-1 part; C09/C10 lemmas of
+   PacketFieldEnum.unpack, FailureNotice.unpack, Service1Tm.unpack / from_tm). *)
+From Coq Require Import ZArith List Bool Lia ZifyBool.
+From SP Require Import Base.Result Base.Bytes Base.BytesFacts Base.Crc16 Base.Crc16Facts
+  Model.SpacePacket Model.Util Model.PusTc Model.PusTm Model.ReqId Model.Fields Model.Srv1
+  Spec.SpacePacketSpec Spec.UtilSpec Spec.PusSpec Spec.Srv1Spec
+  Proofs.SpacePacketProofs Proofs.UtilProofs Proofs.ReqIdProofs.
+Import ListNotations.
+Open Scope Z_scope.
+Ltac Zify.zify_post_hook ::= Z.to_euclidean_division_equations.
+Ltac list_eq := repeat (apply f_equal2; [lia|]); try reflexivity.
+
+(* ================= PacketFieldEnum ================= *)
+
+Lemma enum_width_gen w : enum_width_ok w <-> gen_width_ok w.
+Proof. unfold enum_width_ok, gen_width_ok. tauto. Qed.
+
+Lemma check_pfc_ok w : enum_width_ok w -> check_pfc (w * 8) = Ok w.
+Proof. intros [-> | [-> | [-> | ->]]]; reflexivity. Qed.
+
+Lemma check_pfc_inv pfc n : check_pfc pfc = Ok n -> enum_width_ok n /\ pfc = n * 8.
+Proof.
+  unfold check_pfc. destruct (negb _ || negb _) eqn:E; [discriminate|].
+  intros [= <-]. unfold enum_width_ok. lia.
+Qed.
+
+Lemma check_pfc_err pfc : (forall n, enum_width_ok n -> pfc <> n * 8) -> check_pfc pfc = Err EValue.
+Proof.
+  intros H. destruct (check_pfc pfc) as [n|e] eqn:E.
+  - apply check_pfc_inv in E. destruct E as [W ->]. exfalso. exact (H n W eq_refl).
+  - unfold check_pfc in E. destruct (negb _ || negb _); congruence.
+Qed.
+
+(* only 8 / 16 / 32 / 64 bits are accepted, and the answer is the width in octets *)
+Theorem check_pfc_iff pfc n : check_pfc pfc = Ok n <-> enum_width_ok n /\ pfc = n * 8.
+Proof. split; [apply check_pfc_inv|]. intros [W ->]. apply check_pfc_ok, W. Qed.
+
+Theorem check_pfc_refuses pfc : pfc <> 8 -> pfc <> 16 -> pfc <> 32 -> pfc <> 64 -> check_pfc pfc = Err EValue.
+Proof. intros. apply check_pfc_err. unfold enum_width_ok. intros n W. lia. Qed.
+
+Lemma check_pfc_cases pfc :
+  (exists n, enum_width_ok n /\ pfc = n * 8 /\ check_pfc pfc = Ok n) \/ check_pfc pfc = Err EValue.
+Proof.
+  destruct (check_pfc pfc) as [n|e] eqn:E.
+  - left. exists n. apply check_pfc_inv in E. tauto.
+  - right. unfold check_pfc in E. destruct (negb _ || negb _); congruence.
+Qed.
+
+Lemma enum_width_pos w : enum_width_ok w -> 1 <= w <= 8.
+Proof. unfold enum_width_ok. lia. Qed.
+
+Lemma enum_layout_len w v : enum_width_ok w -> len (enum_layout w v) = w.
+Proof. intros W. apply enum_width_pos in W. apply (layout_len w v). lia. Qed.
+
+Lemma enum_layout_wf w v : wf_bytes (enum_layout w v).
+Proof. apply be_encode_wf. Qed.
+
+Definition mk_pfe (w v : Z) : pfe := {| pfe_pfc := w * 8; pfe_val := v |}.
+
+Theorem pfe_new_ok w v : enum_width_ok w -> pfe_new (w * 8) v = Ok (mk_pfe w v).
+Proof. intros W. unfold pfe_new. rewrite check_pfc_ok by assumption. reflexivity. Qed.
+
+Theorem pfe_new_refuses pfc v : pfc <> 8 -> pfc <> 16 -> pfc <> 32 -> pfc <> 64 -> pfe_new pfc v = Err EValue.
+Proof. intros. unfold pfe_new. rewrite check_pfc_refuses by assumption. reflexivity. Qed.
+
+(* pack = big-endian value on exactly the declared width; len = that width *)
+Theorem pfe_pack_layout w v : enum_fits w v ->
+  pfe_pack (mk_pfe w v) = Ok (enum_layout w v) /\ pfe_len (mk_pfe w v) = Ok w.
+Proof.
+  intros [W R]. unfold pfe_pack, pfe_len, mk_pfe; cbn [pfe_pfc pfe_val].
+  rewrite check_pfc_ok by assumption. cbn [bind]. split; [|reflexivity].
+  rewrite to_unsigned_ok by (try apply enum_width_gen; assumption). reflexivity.
+Qed.
+
+(* a value that does not fit the declared width is never packed *)
+Theorem pfe_pack_refuses w v : enum_width_ok w -> ~ (0 <= v < 256 ^ w) ->
+  exists e, pfe_pack (mk_pfe w v) = Err e.
+Proof.
+  intros W R. unfold pfe_pack, mk_pfe; cbn [pfe_pfc pfe_val].
+  rewrite check_pfc_ok by assumption. cbn [bind].
+  destruct (Z_lt_dec v 0).
+  - exists EStruct. apply to_unsigned_negative; [apply enum_width_gen, W|assumption].
+  - exists EValue. apply to_unsigned_large; [apply enum_width_gen, W|lia].
+Qed.
+
+Lemma pfe_unpack_spec d w : enum_width_ok w -> w <= len d ->
+  pfe_unpack d (w * 8) = Ok (mk_pfe w (be_decode (slice d 0 w))).
+Proof.
+  intros W L. pose proof (enum_width_pos w W) as P. unfold pfe_unpack.
+  rewrite check_pfc_ok by assumption. cbn [bind].
+  destruct (w >? len d) eqn:E; [lia|].
+  rewrite uss_ok by (apply enum_width_gen, W). cbn [bind].
+  rewrite struct_unpack_ok by (apply slice_0_length; lia). cbn [bind].
+  apply pfe_new_ok, W.
+Qed.
+
+Lemma pfe_unpack_short d w : enum_width_ok w -> len d < w -> pfe_unpack d (w * 8) = Err ETooShort.
+Proof.
+  intros W L. unfold pfe_unpack. rewrite check_pfc_ok by assumption. cbn [bind].
+  destruct (w >? len d) eqn:E; [reflexivity|lia].
+Qed.
+
+Lemma pfe_unpack_bad d pfc : check_pfc pfc = Err EValue -> pfe_unpack d pfc = Err EValue.
+Proof. intros H. unfold pfe_unpack. rewrite H. reflexivity. Qed.
+
+(* decode (encode ++ anything) with the declared width *)
+Theorem pfe_unpack_layout w v rest : enum_fits w v ->
+  pfe_unpack (enum_layout w v ++ rest) (w * 8) = Ok (mk_pfe w v).
+Proof.
+  intros [W R]. pose proof (enum_width_pos w W) as P.
+  rewrite pfe_unpack_spec; [|assumption|rewrite len_app, enum_layout_len by assumption; pose proof (len_nonneg rest); lia].
+  unfold enum_layout. change (be_encode (Z.to_nat w) v) with (ubf_layout w v).
+  rewrite slice_0_app_layout by lia. unfold ubf_layout.
+  rewrite be_decode_encode by (rewrite pow256_nat by lia; assumption). reflexivity.
+Qed.
+
+(* decode any octets, then encode: the first w octets come back *)
+Theorem pfe_pack_unpack d w : wf_bytes d -> enum_width_ok w -> w <= len d ->
+  exists f, pfe_unpack d (w * 8) = Ok f /\ pfe_pack f = Ok (slice d 0 w) /\
+            enum_fits w (pfe_val f) /\ pfe_val f = be_decode (slice d 0 w).
+Proof.
+  intros Wf W L. pose proof (enum_width_pos w W) as P.
+  exists (mk_pfe w (be_decode (slice d 0 w))). split; [apply pfe_unpack_spec; assumption|].
+  assert (F : enum_fits w (be_decode (slice d 0 w))).
+  { split; [assumption|]. rewrite slice_0_firstn. apply firstn_repr; [assumption|lia]. }
+  destruct (pfe_pack_layout _ _ F) as [-> _]. split; [|split; [exact F|reflexivity]].
+  f_equal. rewrite slice_0_firstn. apply firstn_layout; [assumption|lia].
+Qed.
+
+(* C10: every octet string, every PFC *)
+Theorem pfe_unpack_total d pfc : ok_or_documented (pfe_unpack d pfc).
+Proof.
+  destruct (check_pfc_cases pfc) as [(n & W & -> & _)|E].
+  - destruct (Z_le_dec n (len d)).
+    + rewrite pfe_unpack_spec by assumption. exact I.
+    + rewrite pfe_unpack_short by (assumption || lia). reflexivity.
+  - rewrite pfe_unpack_bad by assumption. reflexivity.
+Qed.
+
+Theorem pfe_prefix_rejected w v n : enum_width_ok w -> (n < Z.to_nat w)%nat ->
+  pfe_unpack (firstn n (enum_layout w v)) (w * 8) = Err ETooShort.
+Proof.
+  intros W L. apply pfe_unpack_short; [assumption|]. unfold len. rewrite firstn_length. lia.
+Qed.
+
+(* C09: only the first w octets are read *)
+Theorem pfe_no_overread d w : enum_width_ok w -> w <= len d ->
+  pfe_unpack d (w * 8) = pfe_unpack (slice d 0 w) (w * 8).
+Proof.
+  intros W L. pose proof (enum_width_pos w W) as P.
+  assert (L2 : len (slice d 0 w) = w).
+  { unfold len. rewrite slice_0_length by lia. lia. }
+  rewrite !pfe_unpack_spec by (assumption || lia). f_equal. f_equal. f_equal.
+  rewrite !slice_0_firstn. rewrite firstn_firstn. f_equal. lia.
+Qed.
+
+Lemma pfe_eqb_refl f : pfe_eqb f f = true.
+Proof. unfold pfe_eqb. rewrite !Z.eqb_refl. reflexivity. Qed.
+
+Theorem pfe_eqb_iff a b : pfe_eqb a b = true <-> a = b.
+Proof.
+  destruct a as [p v], b as [q u]. unfold pfe_eqb; cbn [pfe_pfc pfe_val].
+  rewrite andb_true_iff, !Z.eqb_eq. split; [intros [-> ->]; reflexivity|intros [= -> ->]; auto].
+Qed.
+
+(* ================= FailureNotice ================= *)
+
+Definition mk_fn (w c : Z) (d : bytes) : fnotice := {| fn_code := mk_pfe w c; fn_data := d |}.
+
+Theorem fn_pack_layout w c d : enum_fits w c ->
+  fn_pack (mk_fn w c d) = Ok (enum_layout w c ++ d) /\ fn_len (mk_fn w c d) = Ok (w + len d).
+Proof.
+  intros F. unfold fn_pack, fn_len, mk_fn; cbn [fn_code fn_data].
+  destruct (pfe_pack_layout w c F) as [-> ->]. split; reflexivity.
+Qed.
+
+Lemma slice_after (a b : bytes) i j : i = len a -> j = len a + len b -> slice (a ++ b) i j = b.
+Proof.
+  intros Hi Hj. pose proof (slice_mid a b [] i j Hi Hj) as E. rewrite app_nil_r in E. exact E.
+Qed.
+
+Theorem fn_unpack_layout w c d : enum_fits w c ->
+  fn_unpack (enum_layout w c ++ d) w (Some (len d)) = Ok (mk_fn w c d) /\
+  fn_unpack (enum_layout w c ++ d) w None = Ok (mk_fn w c d).
+Proof.
+  intros F. pose proof F as [W _]. unfold fn_unpack.
+  rewrite pfe_unpack_layout by assumption. cbn [bind].
+  rewrite len_app, enum_layout_len by assumption.
+  replace (w + len d - w) with (len d) by lia.
+  rewrite slice_after by (rewrite ?enum_layout_len by assumption; reflexivity).
+  split; reflexivity.
+Qed.
+
+(* C10: every octet string, every width argument, every length argument *)
+Theorem fn_unpack_total d n k : ok_or_documented (fn_unpack d n k).
+Proof.
+  unfold fn_unpack. pose proof (pfe_unpack_total d (n * 8)) as T.
+  destruct (pfe_unpack d (n * 8)); cbn [bind]; [exact I|exact T].
+Qed.
+
+Theorem fn_unpack_short d w k : enum_width_ok w -> len d < w -> fn_unpack d w k = Err ETooShort.
+Proof. intros W L. unfold fn_unpack. rewrite pfe_unpack_short by assumption. reflexivity. Qed.
+
+Lemma bytes_eqb_refl a : bytes_eqb a a = true.
+Proof. apply bytes_eqb_eq. reflexivity. Qed.
+
+Theorem fn_eqb_iff a b : fn_eqb a b = true <-> a = b.
+Proof.
+  destruct a as [c d], b as [c' d']. unfold fn_eqb; cbn [fn_code fn_data].
+  rewrite andb_true_iff, pfe_eqb_iff, bytes_eqb_eq.
+  split; [intros [-> ->]; reflexivity|intros [= -> ->]; auto].
+Qed.
+
+(* ================= VerificationParams ================= *)
+
+Definition mk_vp (h : sph) (step : option (Z * Z)) (fail : option (Z * Z * bytes)) : vparams :=
+  {| vp_req := reqid_from_sph h;
+     vp_step := match step with None => None | Some (w, v) => Some (mk_pfe w v) end;
+     vp_fn := match fail with None => None | Some (w, c, d) => Some (mk_fn w c d) end |}.
+
+
+(* source data = request ID ++ step ID ++ failure code ++ failure data, each on its width *)
+Theorem vp_pack_layout h step fail : sph_valid h -> step_fits step -> fail_fits fail ->
+  vp_pack (mk_vp h step fail) = Ok (srv1_src_layout h step fail) /\
+  vp_len (mk_vp h step fail) = Ok (len (srv1_src_layout h step fail)).
+Proof.
+  intros H S F. unfold vp_pack, vp_len, mk_vp, srv1_src_layout; cbn [vp_req vp_step vp_fn].
+  rewrite reqid_pack_layout by assumption. cbn [bind].
+  assert (L4 : len (reqid_layout h) = 4) by reflexivity.
+  destruct step as [[ws v]|], fail as [[[we c] d]|]; cbn [step_fits fail_fits] in S, F.
+  - destruct F as [F Wd]. destruct (pfe_pack_layout ws v S) as [-> ->]. destruct (fn_pack_layout we c d F) as [-> ->].
+    cbn [bind]. rewrite !len_app, !enum_layout_len by (apply S || apply F). rewrite L4. split; [reflexivity|f_equal; ring].
+  - destruct (pfe_pack_layout ws v S) as [-> ->]. cbn [bind].
+    rewrite !len_app, !enum_layout_len by apply S. rewrite L4. change (len []) with 0. split; [reflexivity|f_equal; ring].
+  - destruct F as [F Wd]. destruct (fn_pack_layout we c d F) as [-> ->]. cbn [bind app].
+    rewrite !len_app, !enum_layout_len by apply F. rewrite L4. change (len []) with 0. split; [reflexivity|f_equal; ring].
+  - cbn [bind app]. rewrite app_nil_r. split; reflexivity.
+Qed.
+
+Lemma srv1_src_layout_wf h step fail : sph_valid h -> fail_fits fail -> wf_bytes (srv1_src_layout h step fail).
+Proof.
+  intros H F. unfold srv1_src_layout. rewrite !wf_bytes_app. split; [apply reqid_layout_wf, H|].
+  split.
+  - destruct step as [[ws v]|]; [apply enum_layout_wf|constructor].
+  - destruct fail as [[[we c] d]|]; [|constructor]. rewrite wf_bytes_app. split; [apply enum_layout_wf|apply F].
+Qed.
+
+Lemma k_cases k : 1 <= k <= 8 -> k = 1 \/ k = 2 \/ k = 3 \/ k = 4 \/ k = 5 \/ k = 6 \/ k = 7 \/ k = 8.
+Proof. lia. Qed.
+
+(* parameter sets are accepted exactly when they match the subservice; a mismatch raises
+   InvalidVerifParams *)
+Theorem vp_verify_iff v k : 1 <= k <= 8 ->
+  (srv1_shape_ok k (has (vp_step v)) (has (vp_fn v)) -> vp_verify v k = Ok tt) /\
+  (~ srv1_shape_ok k (has (vp_step v)) (has (vp_fn v)) -> vp_verify v k = Err EVerifParams).
+Proof.
+  intros K. unfold srv1_shape_ok, vp_verify.
+  destruct (k_cases k K) as [->|[->|[->|[->|[->|[->|[->| ->]]]]]]];
+    destruct (vp_step v), (vp_fn v); cbn; split; intros H; try reflexivity;
+    try (exfalso; apply H; split; reflexivity); destruct H; discriminate.
+Qed.
+
+(* ================= the PUS TM wrapper: pack = tm_layout, decode (tm_layout) ================= *)
+
+Definition mk_tm (service k apid seq msgcnt ref dest version : Z) (stamp src : bytes) (crc : option bytes) : tm :=
+  {| tm_sph := {| ver := version; ptype := 0; shf := 1; apid := apid; sflags := 3; scount := seq;
+                  dlen := 7 + len stamp + len src + 1 |};
+     tm_sec := {| tms_version := 2; tms_ref := ref; tms_service := service; tms_subservice := k;
+                  tms_msgcnt := msgcnt; tms_dest := dest; tms_stamp := stamp |};
+     tm_src := src; tm_crc := crc |}.
+
+Definition crc_octets (b : bytes) : bytes := [crc16 b / 256; crc16 b mod 256].
+
+Definition chk_ref (r : Z) : bool :=
+  (Z.shiftr (Z.land (32 + r) 240) 4 =? 2) && (Z.land (32 + r) 15 =? r) && (Z.lor (Z.shiftl 2 4) r =? 32 + r).
+Lemma ref_sweep : forallb chk_ref (zrange 0 16) = true.
+Proof. vm_compute. reflexivity. Qed.
+Lemma ref_bits r : 0 <= r < 16 ->
+  Z.shiftr (Z.land (32 + r) 240) 4 = 2 /\ Z.land (32 + r) 15 = r /\ Z.lor (Z.shiftl 2 4) r = 32 + r.
+Proof.
+  intros R. pose proof (sweep _ 0 16 ltac:(lia) ref_sweep r ltac:(lia)) as P.
+  unfold chk_ref in P. lia.
+Qed.
+
+Lemma tm_hdr_valid service k apid seq msgcnt ref dest version stamp src :
+  tm_args_valid service k apid seq msgcnt ref dest version stamp src ->
+  sph_valid {| ver := version; ptype := 0; shf := 1; apid := apid; sflags := 3; scount := seq;
+               dlen := 7 + len stamp + len src + 1 |}.
+Proof.
+  unfold tm_args_valid, sph_valid; cbn [SpacePacket.ver ptype shf SpacePacket.apid sflags scount dlen].
+  pose proof (len_nonneg stamp). pose proof (len_nonneg src). lia.
+Qed.
+
+Lemma tmsec_pack_layout service k msgcnt ref dest stamp :
+  0 <= service < 256 -> 0 <= k < 256 -> 0 <= msgcnt < 65536 -> 0 <= ref < 16 -> 0 <= dest < 65536 ->
+  tmsec_pack {| tms_version := 2; tms_ref := ref; tms_service := service; tms_subservice := k;
+                tms_msgcnt := msgcnt; tms_dest := dest; tms_stamp := stamp |} =
+  Ok ([32 + ref; service; k; msgcnt / 256; msgcnt mod 256; dest / 256; dest mod 256] ++ stamp).
+Proof.
+  intros Hs Hk Hm Hr Hd. unfold tmsec_pack; cbn [tms_version tms_ref tms_service tms_subservice tms_msgcnt tms_dest tms_stamp].
+  destruct (ref_bits ref Hr) as (_ & _ & ->).
+  unfold ba_append, is_byte.
+  destruct ((0 <=? 32 + ref) && (32 + ref <? 256)) eqn:E1; [|lia]. cbn [bind app].
+  destruct ((0 <=? service) && (service <? 256)) eqn:E2; [|lia]. cbn [bind app].
+  destruct ((0 <=? k) && (k <? 256)) eqn:E3; [|lia]. cbn [bind app].
+  rewrite !struct_pack_ok by (cbn; lia). cbn [bind]. rewrite !be_encode_2. cbn [app].
+  f_equal. list_eq.
+Qed.
+
+Lemma tm_body_wf service k apid seq msgcnt ref dest version stamp src :
+  tm_args_valid service k apid seq msgcnt ref dest version stamp src ->
+  wf_bytes (tm_body service k apid seq msgcnt ref dest version stamp src).
+Proof.
+  intros V. pose proof (tm_hdr_valid _ _ _ _ _ _ _ _ _ _ V) as HV.
+  unfold tm_args_valid in V. destruct V as (Hs & Hk & Ha & Hq & Hm & Hr & Hd & Hv & Ws & Wd & L).
+  unfold tm_body. rewrite !wf_bytes_app. split; [apply sph_layout_wf, HV|].
+  split; [|split; assumption]. repeat (apply Forall_cons; [lia|]). apply Forall_nil.
+Qed.
+
+Lemma crc_octets_be b : wf_bytes b -> crc_octets b = be_encode 2 (crc16 b).
+Proof.
+  intros W. pose proof (crc16_range b W) as R. unfold in16 in R.
+  rewrite be_encode_2. unfold crc_octets. list_eq.
+Qed.
+
+(* PusTm.pack of a telemetry object with in-range fields = the standard's layout *)
+Lemma s1_tm_pack_layout service k apid seq msgcnt ref dest version stamp src crc :
+  tm_args_valid service k apid seq msgcnt ref dest version stamp src ->
+  tm_pack (mk_tm service k apid seq msgcnt ref dest version stamp src crc) =
+  Ok (tm_layout service k apid seq msgcnt ref dest version stamp src,
+      mk_tm service k apid seq msgcnt ref dest version stamp src
+            (Some (crc_octets (tm_body service k apid seq msgcnt ref dest version stamp src)))).
+Proof.
+  intros V. pose proof (tm_hdr_valid _ _ _ _ _ _ _ _ _ _ V) as HV.
+  pose proof (tm_body_wf _ _ _ _ _ _ _ _ _ _ V) as WB.
+  unfold tm_args_valid in V. destruct V as (Hs & Hk & Ha & Hq & Hm & Hr & Hd & Hv & Ws & Wd & L).
+  unfold tm_pack, mk_tm; cbn [tm_sph tm_sec tm_src].
+  rewrite sph_pack_layout by exact HV. cbn [bind].
+  rewrite tmsec_pack_layout by assumption. cbn [bind].
+  assert (B : sph_layout {| ver := version; ptype := 0; shf := 1; apid := apid; sflags := 3; scount := seq;
+                            dlen := 7 + len stamp + len src + 1 |}
+              ++ ([32 + ref; service; k; msgcnt / 256; msgcnt mod 256; dest / 256; dest mod 256] ++ stamp) ++ src
+              = tm_body service k apid seq msgcnt ref dest version stamp src).
+  { unfold tm_body. rewrite <- !app_assoc. reflexivity. }
+  rewrite B. pose proof (crc16_range _ WB) as R. unfold in16 in R.
+  rewrite struct_pack_ok by (change (256 ^ Z.of_nat 2) with 65536; lia). cbn [bind].
+  rewrite <- crc_octets_be by exact WB. reflexivity.
+Qed.
+
+Lemma slice_after_clamp (a b : bytes) i j : i = len a -> len a + len b <= j -> slice (a ++ b) i j = b.
+Proof.
+  intros -> H. unfold slice, len in *. rewrite Nat2Z.id, skipn_app_exact by reflexivity.
+  apply firstn_all2. lia.
+Qed.
+
+Lemma tmsec_unpack_cells c0 c1 c2 c3 c4 c5 c6 stamp rest :
+  Z.shiftr (Z.land c0 240) 4 = 2 ->
+  tmsec_unpack (c0 :: c1 :: c2 :: c3 :: c4 :: c5 :: c6 :: stamp ++ rest) (len stamp) =
+  Ok {| tms_version := 2; tms_ref := Z.land c0 15; tms_service := c1; tms_subservice := c2;
+        tms_msgcnt := c3 * 256 + c4; tms_dest := c5 * 256 + c6; tms_stamp := stamp |}.
+Proof.
+  intros B1. unfold tmsec_unpack, TMSEC_MIN_LEN.
+  pose proof (len_nonneg stamp) as Ls. pose proof (len_nonneg rest) as Lr.
+  assert (L : len (c0 :: c1 :: c2 :: c3 :: c4 :: c5 :: c6 :: stamp ++ rest) = 7 + len stamp + len rest).
+  { change (c0 :: c1 :: c2 :: c3 :: c4 :: c5 :: c6 :: stamp ++ rest) with ([c0; c1; c2; c3; c4; c5; c6] ++ stamp ++ rest).
+    rewrite !len_app. change (len [c0; c1; c2; c3; c4; c5; c6]) with 7. lia. }
+  rewrite L.
+  destruct (7 + len stamp + len rest <? 7) eqn:E2; [lia|].
+  eval_get. cbn [bind]. rewrite B1.
+  change (negb (2 =? PUS_C)) with false. cbv iota.
+  destruct (7 + len stamp >? 7 + len stamp + len rest) eqn:E3; [lia|].
+  change (slice (c0 :: c1 :: c2 :: c3 :: c4 :: c5 :: c6 :: stamp ++ rest) 3 5) with [c3; c4].
+  change (slice (c0 :: c1 :: c2 :: c3 :: c4 :: c5 :: c6 :: stamp ++ rest) 5 7) with [c5; c6].
+  rewrite !struct_unpack_ok by reflexivity. cbn [bind]. rewrite !be_decode_2.
+  change (c0 :: c1 :: c2 :: c3 :: c4 :: c5 :: c6 :: stamp ++ rest) with ([c0; c1; c2; c3; c4; c5; c6] ++ stamp ++ rest).
+  rewrite slice_mid by reflexivity. reflexivity.
+Qed.
+
+(* PusTm.unpack of the layout, with the timestamp length of the layout *)
+Lemma s1_tm_unpack_layout service k apid seq msgcnt ref dest version stamp src :
+  tm_args_valid service k apid seq msgcnt ref dest version stamp src ->
+  tm_unpack (tm_layout service k apid seq msgcnt ref dest version stamp src) (len stamp) =
+  Ok (mk_tm service k apid seq msgcnt ref dest version stamp src
+            (Some (crc_octets (tm_body service k apid seq msgcnt ref dest version stamp src)))).
+Proof.
+  intros V. pose proof (tm_hdr_valid _ _ _ _ _ _ _ _ _ _ V) as HV.
+  pose proof (tm_body_wf _ _ _ _ _ _ _ _ _ _ V) as WB.
+  unfold tm_args_valid in V. destruct V as (Hs & Hk & Ha & Hq & Hm & Hr & Hd & Hv & Ws & Wd & L).
+  pose proof (len_nonneg stamp) as Ls. pose proof (len_nonneg src) as Lr.
+  set (h := {| ver := version; ptype := 0; shf := 1; apid := apid; sflags := 3; scount := seq;
+               dlen := 7 + len stamp + len src + 1 |}) in *.
+  set (body := tm_body service k apid seq msgcnt ref dest version stamp src) in *.
+  set (sec7 := [32 + ref; service; k; msgcnt / 256; msgcnt mod 256; dest / 256; dest mod 256]).
+  set (crc := crc_octets body).
+  assert (Lh : len (sph_layout h) = 6) by reflexivity.
+  assert (L7 : len sec7 = 7) by reflexivity.
+  assert (Lc : len crc = 2) by reflexivity.
+  assert (D : tm_layout service k apid seq msgcnt ref dest version stamp src
+              = sph_layout h ++ (sec7 ++ stamp ++ src ++ crc)).
+  { unfold tm_layout. fold body. fold crc. unfold body, tm_body. fold h. fold sec7.
+    rewrite <- !app_assoc. reflexivity. }
+  assert (Ltot : len (sph_layout h ++ (sec7 ++ stamp ++ src ++ crc)) = 15 + len stamp + len src).
+  { rewrite !len_app, Lh, L7, Lc. lia. }
+  unfold tm_unpack. rewrite D. rewrite sph_unpack_pack by exact HV. cbn [bind].
+  unfold get_total_space_packet_len_from_len_field. change (dlen h) with (7 + len stamp + len src + 1).
+  rewrite Ltot.
+  destruct (7 + len stamp + len src + 1 + 6 + 1 >? 15 + len stamp + len src) eqn:E1; [lia|].
+  unfold CCSDS_HEADER_LEN. rewrite slice_from_app by (rewrite Lh; reflexivity).
+  (* secondary header *)
+  assert (TS : tmsec_unpack (sec7 ++ stamp ++ src ++ crc) (len stamp) =
+               Ok {| tms_version := 2; tms_ref := ref; tms_service := service; tms_subservice := k;
+                     tms_msgcnt := msgcnt; tms_dest := dest; tms_stamp := stamp |}).
+  { destruct (ref_bits ref Hr) as (B1 & B2 & _).
+    unfold sec7. cbn [app]. rewrite tmsec_unpack_cells by exact B1.
+    rewrite B2. f_equal. f_equal; lia. }
+  rewrite TS. cbn [bind]. unfold tmsec_header_size; cbn [tms_stamp].
+  destruct (7 + len stamp + len src + 1 + 6 + 1 <? 7 + len stamp + 6 + 2) eqn:E4; [lia|].
+  (* CRC over the declared packet *)
+  assert (ST : slice_to (sph_layout h ++ sec7 ++ stamp ++ src ++ crc) (7 + len stamp + len src + 1 + 6 + 1)
+               = sph_layout h ++ sec7 ++ stamp ++ src ++ crc).
+  { unfold slice_to. apply firstn_all2. unfold len in *. lia. }
+  rewrite ST.
+  assert (BC : sph_layout h ++ sec7 ++ stamp ++ src ++ crc = body ++ be_encode 2 (crc16 body)).
+  { unfold crc. rewrite crc_octets_be by exact WB. unfold body, tm_body. fold h. fold sec7.
+    rewrite <- !app_assoc. reflexivity. }
+  rewrite BC at 1. rewrite crc_residue by exact WB. change (negb (0 =? 0)) with false. cbv iota.
+  (* source data and CRC slices *)
+  assert (S1 : slice (sph_layout h ++ sec7 ++ stamp ++ src ++ crc) (7 + len stamp + 6) (7 + len stamp + len src + 1 + 6 + 1 - 2) = src).
+  { replace (sph_layout h ++ sec7 ++ stamp ++ src ++ crc) with ((sph_layout h ++ sec7 ++ stamp) ++ src ++ crc)
+      by (rewrite <- !app_assoc; reflexivity).
+    apply slice_mid; rewrite !len_app, Lh, L7; lia. }
+  assert (S2 : slice (sph_layout h ++ sec7 ++ stamp ++ src ++ crc) (7 + len stamp + len src + 1 + 6 + 1 - 2) (7 + len stamp + len src + 1 + 6 + 1) = crc).
+  { replace (sph_layout h ++ sec7 ++ stamp ++ src ++ crc) with ((sph_layout h ++ sec7 ++ stamp ++ src) ++ crc)
+      by (rewrite <- !app_assoc; reflexivity).
+    apply slice_after_clamp; rewrite !len_app, Lh, L7; try rewrite Lc; lia. }
+  rewrite S1, S2. reflexivity.
+Qed.
